@@ -410,6 +410,7 @@ fn hist_opts() -> GenOpts {
         constraints: true,
         composite_keys: true,
         alter: false,
+        alter_col: false,
         w_select: 1,
         w_begin: 2,
         max_rows_per_insert: 4,
